@@ -150,7 +150,16 @@ def gen_case(cseed: int, tier: str) -> dict[str, Any]:
         feats |= {"reloc"}
     prog = progen.gen_program(w, mapping, feats, [], size=w.choice([4, 8, 12]))
     delta = w.choice(DELTAS)
+    edge = None
+    if w.random() < 0.2:
+        # a record at an edge of the 24-bit offset space; the delta is chosen so that it lands in the free zone
+        edge = w.choice([0, 1, 0xFFFF, 0x10000, 0xFF0000, 0xFFFFFE, 0xFFFFFF, 0x454F45, 0x454F47])
+        delta = w.randrange(FREE_LO, FREE_HI - 0x10000) - edge
     recs = gen_records(w, delta)
+    if edge is not None:
+        n = w.choice([1, 2, 255, 4096])
+        first = (edge, "rle", (n, w.randrange(256)), 0) if w.random() < 0.3 else (edge, "plain", n, w.getrandbits(32))
+        recs = [first] + recs[: w.randrange(0, 4)]
     slots = [s for s in progen.iter_slots(prog) if s["assembled"] and not (s["file"] == "main.s" and not s["path"] and s["pos"] == 0)]
     slot = w.choice(slots)
     dform = w.choice(["lit", "lit", "const", "const_reassigned", "const_signed", "macro_arg"])
